@@ -2,7 +2,7 @@ SPECIFICATION Spec
 CONSTANTS
   Algs = {"ed25519", "secp256k1", "p256", "p384", "p521", "rsa"}
   KeyIds = @KeyIds@
-  Encodings = {"canonical", "uncompressed", "hybrid", "padded", "nonminimal", "short", "long", "offcurve", "garbage"}
+  Encodings = {"canonical", "uncompressed", "hybrid", "padded", "nonminimal", "pkix", "short", "long", "offcurve", "garbage"}
   Prefixes = {"did:key:", "did:web:", "DID:KEY:", ""}
   Mbases = {"z", "m", "f", "none"}
   Codes = {"own", "nonminimal", "x25519", "bls", "zero"}
